@@ -68,30 +68,45 @@ fn check_file(spec: &FileSpec, ch: &mut Chooser) -> (Outcome, Vec<u8>) {
 /// Known-finding classification by the deviations taken (DESIGN Appendix A): only when every
 /// deviation that matters belongs to the finding's class and removing those makes the file pass.
 fn classify(spec: &FileSpec, ch: &Chooser) -> Option<&'static str> {
+    type Pred = fn(&'static str, usize) -> bool;
+    fn is_raw_eol(c: &'static str, o: usize) -> bool {
+        c == "str.literal" && (o == 7 || o == 8)
+    }
+    fn is_parms(c: &'static str, o: usize) -> bool {
+        (c == "xs.filter" || c == "os.filter") && o == 4
+    }
+    let findings: [(Pred, &'static str); 2] = [(is_raw_eol, "string-raw-eol"), (is_parms, "decodeparms-array")];
     let devs = ch.deviations();
-    let _ = &devs;
-    let is_raw_eol = |d: &(usize, &'static str, usize)| d.1 == "str.literal" && (d.2 == 7 || d.2 == 8);
-    let is_parms = |d: &(usize, &'static str, usize)| (d.1 == "xs.filter" || d.1 == "os.filter") && d.2 == 4;
-    for (pred, id) in [(&is_raw_eol as &dyn Fn(&(usize, &'static str, usize)) -> bool, "string-raw-eol"), (&is_parms, "decodeparms-array")] {
-        if devs.iter().any(|d| pred(d)) {
-            // re-render with the same forcing minus the suspect class/option
-            let mut c2 = Chooser::new();
-            for (i, o) in &ch.at_point {
-                let cls = ch.log.get(*i).map(|p| p.class).unwrap_or("");
-                if !pred(&(*i, cls, *o)) {
-                    c2.at_point.insert(*i, *o);
-                }
-            }
-            for (k, v) in &ch.at_class {
-                let cls: &'static str = ch.log.iter().find(|p| p.class == k.as_str()).map(|p| p.class).unwrap_or("");
-                if !pred(&(0, cls, *v)) {
-                    c2.at_class.insert(k.clone(), *v);
-                }
-            }
-            if check_file(spec, &mut c2).0 == Outcome::Pass {
-                return Some(id);
+    let present: Vec<usize> = (0..findings.len()).filter(|k| devs.iter().any(|d| findings[*k].0(d.1, d.2))).collect();
+    if present.is_empty() {
+        return None;
+    }
+    // re-render with the same forcing minus the deviations of the given findings
+    let without = |which: &[usize]| -> bool {
+        let suspect = |c: &'static str, o: usize| which.iter().any(|k| findings[*k].0(c, o));
+        let mut c2 = Chooser::new();
+        for (i, o) in &ch.at_point {
+            let cls = ch.log.get(*i).map(|p| p.class).unwrap_or("");
+            if !suspect(cls, *o) {
+                c2.at_point.insert(*i, *o);
             }
         }
+        for (k, v) in &ch.at_class {
+            let cls: &'static str = ch.log.iter().find(|p| p.class == k.as_str()).map(|p| p.class).unwrap_or("");
+            if !suspect(cls, *v) {
+                c2.at_class.insert(k.clone(), *v);
+            }
+        }
+        check_file(spec, &mut c2).0 == Outcome::Pass
+    };
+    for k in &present {
+        if without(&[*k]) {
+            return Some(findings[*k].1);
+        }
+    }
+    // several catalogued defects at once: the case is explained only if it passes without all of them
+    if present.len() > 1 && without(&present) {
+        return Some(findings[present[0]].1);
     }
     None
 }
